@@ -5,7 +5,8 @@ package main
 // "abandoned" addFields+unescape+replace chain, e-mail redaction, multi-line, escapes), at lengths on both sides of
 // the pooling threshold (1024) and of several BytesPoolBy2n size classes, plus rejected lines.
 //
-// No generated line contains the byte 0xDB: with the verif build tag released pooled buffers are filled with it, so
+// No generated line contains the bytes 0xDB / 0xEE: with the verif build tag released pooled buffers are filled with 0xDB
+// (and stage 1 overwrites the transient input slice with 0xEE after Parse), so
 // that byte in a decoded field value can only come from a released buffer.
 
 import (
@@ -266,11 +267,93 @@ func genLine(r *rand.Rand, id string, stamp string, o genOpts) *lineSpec {
 	}
 	ls.kind = strings.Join(kinds, "+")
 	for _, b := range ls.data {
-		if b == 0xDB {
+		if b == poisonByte || b == scrambleByte {
 			panic("generator produced the poison byte")
 		}
 	}
 	return ls
+}
+
+// family is a set of records with one layout: every header token has the same length in all members and the total
+// length is the same, so that members land in the same pooled buffer at the same offsets — what a client that logs
+// with one format produces. Members differ in the zone offset, the digits of the timestamp and the message text.
+type family struct {
+	pri     int
+	fracLen int
+	zones   []string
+	hosts   []string // same length
+	app     string
+	pid     string
+	src     string
+	sd      string
+	prefix  string
+	body    string
+	target  int
+}
+
+func genFamily(r *rand.Rand, o genOpts) *family {
+	f := &family{pri: r.Intn(24)*8 + r.Intn(8), fracLen: []int{0, 3, 6, 9}[r.Intn(4)]}
+	if o.fewKeys {
+		f.pri = r.Intn(24)*8 + []int{1, 3, 4, 6}[r.Intn(4)]
+	}
+	want := []int{6, 6, 6, 5, 1}[r.Intn(5)]
+	for _, z := range genZones {
+		if len(z) == want {
+			f.zones = append(f.zones, z)
+		}
+	}
+	if want == 1 {
+		f.zones = []string{"Z"}
+	}
+	apps := genApps
+	if o.fewKeys {
+		apps = genApps2
+	}
+	f.app, f.pid, f.sd = apps[r.Intn(len(apps))], genPids[r.Intn(len(genPids))], genSDs[r.Intn(len(genSDs))]
+	f.hosts = [][]string{{"errors"}, {"web1.example.com", "web2.example.com", "web3.example.org"}, {"h2", "h3", "h4"}, {"local", "node1", "node2"}, {"-"}}[r.Intn(5)]
+	f.src = genSources[r.Intn(len(genSources))]
+	if strings.HasSuffix(f.src, ":") {
+		f.src += "123e4567-e89b-12d3-a456-42661417400" + genUUIDEnd[r.Intn(len(genUUIDEnd))]
+	}
+	if r.Intn(3) == 0 {
+		f.prefix = "[" + genClasses[r.Intn(len(genClasses))] + "] - "
+	}
+	switch r.Intn(4) {
+	case 0:
+		f.body = `esc\n\tx `
+	case 1:
+		f.body = "mail a.b@example.com "
+	}
+	switch x := r.Intn(10); {
+	case x < 2:
+		f.target = 300 + r.Intn(600)
+	case x < 7:
+		f.target = 1100 + r.Intn(900) // one class: 2^11
+	default:
+		f.target = 2100 + r.Intn(14000)
+	}
+	return f
+}
+
+func (f *family) member(r *rand.Rand, id, stamp string) *lineSpec {
+	ts := fmt.Sprintf("20%02d-%02d-%02dT%02d:%02d:%02d", 10+r.Intn(27), 1+r.Intn(12), 1+r.Intn(28), r.Intn(24), r.Intn(60), r.Intn(60))
+	if f.fracLen > 0 {
+		ts += "."
+		for i := 0; i < f.fracLen; i++ {
+			ts += string(rune('0' + r.Intn(10)))
+		}
+	}
+	ts += f.zones[r.Intn(len(f.zones))]
+	head := fmt.Sprintf("<%d>1 %s %s %s %s %s %s ", f.pri, ts, f.hosts[r.Intn(len(f.hosts))], f.app, f.pid, f.src, f.sd)
+	msg := f.prefix + stamp + f.body
+	if rest := f.target - len(head) - len(msg); rest > 0 {
+		msg += filler(r, id, rest, false, false)
+	}
+	d := []byte(head + msg)
+	for len(d) < 33 {
+		d = append(d, '.')
+	}
+	return &lineSpec{data: d, kind: "family", stage2: true, validUTF8: true, stamp: stamp}
 }
 
 func sizeClass(n int) string {
@@ -286,15 +369,83 @@ func sizeClass(n int) string {
 
 // stream is one stage-1 case: a pool of distinct lines and a sequence of picks from it (orders and repetitions).
 type stream struct {
-	idx   int
-	lines []*lineSpec
-	seq   []int // indices into lines
-	nConn int
-	batch int // records parsed on a connection before they are handed on (1 = strictly one at a time)
+	idx    int
+	lines  []*lineSpec
+	seq    []int // indices into lines
+	nConn  int
+	batch  int // records parsed on a connection before they are handed on (1 = strictly one at a time)
 	defer_ int // hand-overs that may pile up before the workers run
+	family bool
+	sweep  bool
+}
+
+// genFamilyStream: long runs inside a few layout families, a few unrelated lines in between.
+func genFamilyStream(r *rand.Rand, idx int, o genOpts) *stream {
+	st := &stream{idx: idx, family: true}
+	nFam := 2 + r.Intn(4)
+	var members [][]int
+	for f := 0; f < nFam; f++ {
+		fam := genFamily(r, o)
+		var ids []int
+		for m := 0; m < 12+r.Intn(20); m++ {
+			ids = append(ids, len(st.lines))
+			st.lines = append(st.lines, fam.member(r, fmt.Sprintf("s%df%dm%d", idx, f, m), ""))
+		}
+		members = append(members, ids)
+	}
+	nOther := 4 + r.Intn(8)
+	firstOther := len(st.lines)
+	for i := 0; i < nOther; i++ {
+		st.lines = append(st.lines, genLine(r, fmt.Sprintf("s%dl%d", idx, i), "", o))
+	}
+	nSeq := 200 + r.Intn(200)
+	for len(st.seq) < nSeq {
+		ids := members[r.Intn(nFam)]
+		for k := 0; k < 10+r.Intn(50); k++ {
+			st.seq = append(st.seq, ids[r.Intn(len(ids))])
+			if r.Intn(15) == 0 {
+				st.seq = append(st.seq, firstOther+r.Intn(nOther))
+			}
+		}
+	}
+	st.nConn = 1 + r.Intn(2)
+	st.batch = []int{1, 1, 1, 2, 3, 5, 13}[r.Intn(7)]
+	st.defer_ = []int{0, 0, 1}[r.Intn(3)]
+	return st
+}
+
+// genSweep: ONE layout family, about a hundred records handed over one at a time, meant for a world of its own.
+// A component that keeps a reference into a record's buffer (a cache key, a remembered value) meets, in the same
+// buffer at the same offset, the text of the next record; where the confusion needs a hash collision inside a small
+// fresh map, many small worlds see it and one long-lived world does not.
+func genSweep(r *rand.Rand, idx int, o genOpts) *stream {
+	st := &stream{idx: idx, family: true, sweep: true}
+	var fam *family
+	for {
+		fam = genFamily(r, o)
+		if len(fam.zones) >= 10 {
+			break
+		}
+	}
+	if r.Intn(4) != 0 {
+		fam.target = 1100 + r.Intn(900)
+	}
+	n := 24 + r.Intn(16)
+	for m := 0; m < n; m++ {
+		st.lines = append(st.lines, fam.member(r, fmt.Sprintf("w%dm%d", idx, m), ""))
+	}
+	for k := 0; k < 80+r.Intn(60); k++ {
+		st.seq = append(st.seq, r.Intn(n))
+	}
+	st.nConn = 1
+	st.batch = []int{1, 1, 1, 2}[r.Intn(4)]
+	return st
 }
 
 func genStream(r *rand.Rand, idx int, o genOpts) *stream {
+	if r.Intn(100) < 35 {
+		return genFamilyStream(r, idx, o)
+	}
 	st := &stream{idx: idx}
 	nLines := 30 + r.Intn(40)
 	for i := 0; i < nLines; i++ {
